@@ -145,6 +145,8 @@ theorem runOps_sim {σ : Type} (g : σ → Ev → σ) (R : σ → World → Prop
     (hit : ∀ s w me, R s w → R (g s (.it me (setCall w me false).2)) (setCall w me false).1)
     (hff : ∀ s w me t x, R s w → R (g s (.force me t x false)) w)
     (hpair : ∀ s w me t x, R s w → R (g (g s (.force me t x true)) (.ecmd t x)) w)
+    (herr : ∀ s w me, R s w → R (g s (.err me)) { w with thrown := true })
+    (hexec : ∀ s w me, R s w → R (g s (.exec me (w.alive me && w.interactive me))) w)
     (sc : Scripts) (f : Nat) (w : World) (me : Nat) (ops : List Op) (s : σ) (hs : R s w) :
     R ((runOps sc f w me ops).2.foldl g s) (runOps sc f w me ops).1 := by
   induction f generalizing w me ops s with
@@ -154,9 +156,11 @@ theorem runOps_sim {σ : Type} (g : σ → Ev → σ) (R : σ → World → Prop
     | nil => simpa [runOps] using hs
     | cons op rest =>
       have hop : ∀ (w1 : World) (e1 : List Ev), R (e1.foldl g s) w1 →
-          R ((if w1.alive me then ((runOps sc f w1 me rest).1, e1 ++ (runOps sc f w1 me rest).2) else (w1, e1)).2.foldl g s)
-            (if w1.alive me then ((runOps sc f w1 me rest).1, e1 ++ (runOps sc f w1 me rest).2) else (w1, e1)).1 := by
+          R ((if w1.thrown then (w1, e1) else if w1.alive me then ((runOps sc f w1 me rest).1, e1 ++ (runOps sc f w1 me rest).2) else (w1, e1)).2.foldl g s)
+            (if w1.thrown then (w1, e1) else if w1.alive me then ((runOps sc f w1 me rest).1, e1 ++ (runOps sc f w1 me rest).2) else (w1, e1)).1 := by
         intro w1 e1 he
+        split
+        · exact he
         split
         · simp only [List.foldl_append]; exact ih w1 me rest _ he
         · exact he
@@ -181,6 +185,8 @@ theorem runOps_sim {σ : Type} (g : σ → Ev → σ) (R : σ → World → Prop
         revert hg
         cases hsc : setCall w me false with
         | mk w' r => intro hg; exact hop _ _ (by simpa using hg)
+      | err => exact hop _ _ (by simpa using herr s w me hs)
+      | exec => exact hop _ _ (by simpa using hexec s w me hs)
 
 
 /-! ### scripts keep the invariant -/
@@ -259,6 +265,9 @@ theorem G_runOps (sc : Scripts) (f : Nat) (w : World) (me : Nat) (ops : List Op)
   · intro s w me hh; exact G_setCall s w me false hh.1 hh.2
   · intro s w me t x hh; exact hh
   · intro s w me t x hh; exact hh
+  · intro s w me hh
+    exact ⟨G_congr _ _ _ hh.1 (fun _ => rfl) rfl rfl, fun u hu => hh.2 u hu⟩
+  · intro s w me hh; exact hh
   · exact ⟨h, hd⟩
 
 
